@@ -109,5 +109,38 @@ pub fn run(out: &mut Out, tier: &str, seed: u64, _corpus: Option<&str>) {
             }
         }
     }
+    // views with padded rows and cropped views, rows wider than the encoders' staging buffers (512 pixels / 4096 bytes)
+    for fi in 0..FORMATS.len() {
+        let (format, name) = FORMATS[fi];
+        let Some(support) = format.encoding_support() else { continue; };
+        let (mx, my) = support.size_multiple().map(|(a, b)| (a.get(), b.get())).unwrap_or((1, 1));
+        for k in 0..(if thorough { 12 } else { 3 }) {
+            let color = COLORS[(fi + k * 5) % 12];
+            let w = [1030u32, 520, 1400, 345, 260, 4100][(fi + k) % 6].div_ceil(mx) * mx; let h = (1 + (k as u32 % 3)).div_ceil(my) * my;
+            let bpp = color.bytes_per_pixel() as usize;
+            let crop = k % 2 == 1;
+            // parent view: w + 3 pixels wide (crop) or rows padded by 1..40 bytes
+            let (pw, pad) = if crop { (w + 3, 0usize) } else { (w, 1 + rng.below(40) as usize) };
+            let pitch = pw as usize * bpp + pad;
+            let mut data = vec![0u8; pitch * (h as usize - 1) + pw as usize * bpp];
+            for b in data.iter_mut() { *b = (rng.next() >> 9) as u8 & 0x3f; }
+            let Some(parent) = ImageView::new_with(&data, pitch, Size::new(pw, h), color) else { println!("IMPL-VIOLATION view refused: {name} {pw}x{h} pitch {pitch}"); continue; };
+            let view = if crop { parent.cropped(Offset::new(2, 0), Size::new(w, h)) } else { parent };
+            let mut o = EncodeOptions::default(); o.quality = CompressionQuality::Fast; o.parallel = k % 3 == 0;
+            o.dithering = [Dithering::None, Dithering::ColorAndAlpha][k % 2];
+            let expected = PixelInfo::from(format).surface_bytes(Size::new(w, h)).unwrap() as usize;
+            let mut wr = FailingWriter { written: 0, fail_at: None, zero: false };
+            let what = format!("{name} {w}x{h} from {:?} {:?} through a {} view (pitch {pitch}) dithering {:?} parallel {}", color.channels, color.precision, if crop { "cropped" } else { "padded" }, o.dithering, o.parallel);
+            watch(60, what.clone());
+            let res = catch(|| encode(&mut wr, view, format, None, &o));
+            unwatch();
+            out.count("padded_or_cropped_views"); out.count("oracle_calls");
+            match res {
+                None => println!("IMPL-VIOLATION panic: encode {what}"),
+                Some(Ok(())) => if wr.written != expected { println!("IMPL-VIOLATION encode returned Ok after {} bytes, the encoded length is {expected}: {what}", wr.written); },
+                Some(Err(e)) => println!("IMPL-VIOLATION undocumented error {e}: {what}"),
+            }
+        }
+    }
     out.case(1, &[15], &[15]);
 }
